@@ -718,3 +718,109 @@ def b64_cases(lengths):
                 continue
             for t in sorted(set([0, 1, max(n - 2, 0), max(n - 1, 0), n, n + 1, n + 2])):
                 yield t, v
+
+
+# ------------------------------------------------ strict parser for the import model ----
+# Documents on which the built-in tokenizer's behaviour is the plain one: header lines, an exact
+# <topology version="M.m"> tag, tags <name attr="value" .../> with [a-z0-9_] names, values without < > and with the
+# seven entities only, text only right after an opening tag, balanced closing tags.  Anything else -> None
+# ("lexically irregular": left to the tokenizer correspondence, not judged by the import model).
+_TAGRE = re.compile(rb'<([a-z0-9_]+)((?:[ \t\r\n]+[a-z_]+="[^"<>]*")*)[ \t\r\n]*(/?)>')
+_ATTRRE = re.compile(rb'[ \t\r\n]+([a-z_]+)="([^"<>]*)"')
+_ENT = {b"&#10;": b"\n", b"&#13;": b"\r", b"&#9;": b"\t", b"&quot;": b'"', b"&lt;": b"<", b"&gt;": b">", b"&amp;": b"&"}
+
+
+def _unescape(v):
+    out, i = b"", 0
+    while i < len(v):
+        if v[i:i + 1] == b"&":
+            for e, c in _ENT.items():
+                if v.startswith(e, i):
+                    out += c
+                    i += len(e)
+                    break
+            else:
+                return None
+        else:
+            out += v[i:i + 1]
+            i += 1
+    return out
+
+
+def parse_strict(data):
+    """-> (major, minor, [elements]) with element = [tag, [(name, value)], content, closed, [children]], or None"""
+    if b"\x00" in data:
+        return None
+    pos = 0
+    while data.startswith((b"<?xml ", b"<!DOCTYPE "), pos):
+        nl = data.find(b"\n", pos)
+        if nl < 0:
+            return None
+        pos = nl + 1
+    m = re.compile(rb'<topology version="(\d{1,9})\.(\d{1,9})">').match(data, pos)
+    if not m:
+        return None
+    major, minor = int(m.group(1)), int(m.group(2))
+    pos = m.end()
+    top = []
+    stack = [[b"topology", [], b"", False, top]]
+    fresh = False            # right after an opening tag: text is that element's content
+    while True:
+        lt = data.find(b"<", pos)
+        if lt < 0:
+            return None
+        text = data[pos:lt]
+        if fresh:
+            stack[-1][2] = text
+        elif text.strip(b" \t\r\n"):
+            return None
+        fresh = False
+        if data.startswith(b"</", lt):
+            gt = data.find(b">", lt)
+            if gt < 0 or data[lt + 2:gt] != stack[-1][0]:
+                return None
+            stack.pop()
+            pos = gt + 1
+            if not stack:
+                return major, minor, top
+            continue
+        m = _TAGRE.match(data, lt)
+        if not m:
+            return None
+        # the built-in tokenizer wants exactly one blank between the tag name and the first attribute
+        if m.group(2) and not m.group(2).startswith(b" "):
+            return None
+        attrs = []
+        for a in _ATTRRE.finditer(m.group(2)):
+            v = _unescape(a.group(2))
+            if v is None or b"\x00" in v:
+                return None
+            attrs.append((a.group(1), v))
+        el = [m.group(1), attrs, b"", bool(m.group(3)), []]
+        stack[-1][4].append(el)
+        pos = m.end()
+        if not m.group(3):
+            stack.append(el)
+            fresh = True
+
+
+def serialize_doc(ident, parsed):
+    major, minor, top = parsed
+    out = [b"DOC %s %d %d" % (ident.encode(), major, minor)]
+
+    def hx(b):
+        return b.hex().encode() if b else b"-"
+
+    def rec(el, depth):
+        out.append(b"E %s %d %s" % (hx(el[0]), 1 if el[3] else 0, hx(el[2])))
+        for n, v in el[1]:
+            out.append(b"A %s %s" % (hx(n), hx(v)))
+        if depth < 400:
+            for c in el[4]:
+                rec(c, depth + 1)
+        out.append(b"X")
+
+    for el in top:
+        rec(el, 0)
+    out.append(b"ENDDOC")
+    return b"\n".join(out) + b"\n"
